@@ -1,53 +1,76 @@
 import Juniper.Model.ParDo
-import Juniper.Proofs.SkeletonPar
+import Juniper.Proofs.SkeletonParDo
 /-! Basic facts for the `parallel.Do` / `DoContext` model: the regenerated guards mean what the
-proofs assume (`Code.Sound`), the clamping arithmetic, and the shape of reachable states. -/
+proofs assume (`Code.Sound`: the tactic `pardo_sound`), the clamping arithmetic, and the shape of reachable states. -/
 set_option linter.unusedSimpArgs false
 set_option linter.unusedVariables false
 
 namespace Juniper.Proofs.ParDo
 open Juniper.Gen Juniper.Model.ParDo
-open Juniper.Proofs.SkeletonPar (under pskelDo_ties pskelDoContext_ties pskelMap_tie pskelMapContext_tie)
 
-/-- The guards regenerated from `parallel.Do` are the ones the proofs are about, for a body whose
-control skeleton (top level, sequential path, worker loop) is the one `step` hard-wires. -/
-theorem doCode_sound : doCode.Sound :=
-  under pskelDo_ties (by constructor <;> first | decide | (intros; rfl))
+/-- `pardo_sound hc` proves `cfg.code.Sound` from `hc : cfg.code = doCode ∨ cfg.code = dcCode`: every field of
+`Code.Sound` by evaluating the regenerated definitions (`rfl` / `decide`), `under` the control-skeleton ties
+of the body (top level, sequential path, worker loop — the statement order `step` hard-wires).
 
-/-- The guards regenerated from `parallel.DoContext` are the ones the proofs are about, for a body
-whose control skeleton (top level, sequential path, worker loop) is the one `step` hard-wires. -/
-theorem dcCode_sound : dcCode.Sound :=
-  under pskelDoContext_ties (by constructor <;> first | decide | (intros; rfl))
+There is deliberately **no closed lemma** `doCode.Sound` in `Proofs/`: every property theorem of
+`Props/C13*.lean` runs this tactic itself, so that a changed fact (an operator flipped, a loop header or a
+clamp assignment changed, a statement dropped in `parallel.go`) makes *the property theorems* fail to
+compile, by name, rather than a lemma upstream of them. -/
+syntax "pardo_sound " term : tactic
+macro_rules
+  | `(tactic| pardo_sound $hc:term) =>
+    `(tactic| (
+      have hcode := $hc
+      rcases hcode with h | h <;> rw [h]
+      · exact Juniper.Proofs.SkeletonPar.under Juniper.Proofs.SkeletonPar.pskelDo_ties
+          (by constructor <;> first | decide | (intros; rfl))
+      · exact Juniper.Proofs.SkeletonPar.under Juniper.Proofs.SkeletonPar.pskelDoContext_ties
+          (by constructor <;> first | decide | (intros; rfl))))
 
-theorem map_wrappers_structural : mapStructural = true ∧ mapContextStructural = true :=
-  under (And.intro pskelMap_tie pskelMapContext_tie) (by constructor <;> decide)
-
-theorem loopCount_lt (cond : Int → Bool) (p : Int) (hc : ∀ j, cond j = decide (j < p)) :
-    ∀ (fuel : Nat) (j : Int), 0 ≤ j → (p - j).toNat ≤ fuel → loopCount cond fuel j = (p - j).toNat := by
+theorem loopCount_lt (cond : Int → Bool) (post : Int → Int) (p : Int) (hc : ∀ j, cond j = decide (j < p))
+    (hp : ∀ j, post j = j + 1) :
+    ∀ (fuel : Nat) (j : Int), 0 ≤ j → (p - j).toNat ≤ fuel → loopCount cond post fuel j = (p - j).toNat := by
   intro fuel
   induction fuel with
   | zero => intro j _ h; simp [loopCount]; omega
   | succ f ih =>
     intro j hj h
-    simp only [loopCount, hc]
+    simp only [loopCount, hc, hp]
     by_cases hlt : j < p
     · simp [hlt]
       rw [ih (j + 1) (by omega) (by omega)]
       omega
     · simp [hlt]; omega
 
+/-- the spawn loop `for j := 0; j < parallelism; j++` (regenerated header) starts `parallelism` goroutines -/
 theorem numWorkers_eq {cfg : Cfg} (hs : cfg.code.Sound) : numWorkers cfg = (effPar cfg).toNat := by
   unfold numWorkers
-  rw [loopCount_lt _ (effPar cfg) (fun j => hs.spawnLoop j _) _ 0 (by omega) (by omega)]
+  rw [hs.spawnInit, loopCount_lt _ _ (effPar cfg) (fun j => hs.spawnLoop j _) hs.spawnPost _ 0 (by omega) (by omega)]
   simp
 
+theorem afterLow_eq {cfg : Cfg} (hs : cfg.code.Sound) :
+    afterLow cfg = (if cfg.P ≤ 0 then (cfg.gmp : Int) else cfg.P, (cfg.n : Int)) := by
+  simp only [afterLow, hs.clampLow, hs.lowAssign]
+  by_cases h : cfg.P ≤ 0 <;> simp [h]
+
+/-- requested parallelism: `GOMAXPROCS` (the regenerated right-hand side of the first clamp) when `P ≤ 0` -/
 theorem reqPar_eq {cfg : Cfg} (hs : cfg.code.Sound) :
     reqPar cfg = if cfg.P ≤ 0 then (cfg.gmp : Int) else cfg.P := by
-  simp [reqPar, hs.clampLow]
+  simp [reqPar, afterLow_eq hs]
+
+theorem afterHigh_eq {cfg : Cfg} (hs : cfg.code.Sound) :
+    afterHigh cfg = (if reqPar cfg > cfg.n then (cfg.n : Int) else reqPar cfg, (cfg.n : Int)) := by
+  simp only [afterHigh, reqPar, hs.clampHigh, hs.highAssign, afterLow_eq hs]
+  split <;> simp_all
+  all_goals split <;> rfl
 
 theorem effPar_eq {cfg : Cfg} (hs : cfg.code.Sound) :
     effPar cfg = if reqPar cfg > cfg.n then (cfg.n : Int) else reqPar cfg := by
-  simp [effPar, hs.clampHigh]
+  simp [effPar, afterHigh_eq hs]
+
+/-- neither clamp statement assigns `n` (regenerated: both assign `parallelism`) -/
+theorem effN_eq {cfg : Cfg} (hs : cfg.code.Sound) : effN cfg = (cfg.n : Int) := by
+  simp [effN, afterHigh_eq hs]
 
 theorem effPar_le_reqPar {cfg : Cfg} (hs : cfg.code.Sound) : effPar cfg ≤ reqPar cfg := by
   rw [effPar_eq hs]; split <;> omega
